@@ -9,7 +9,7 @@ CONSTANTS
   SuFields <- MCSuFields
   MaxLen = 3
   Variants = 2
-  MaxPending = 1
+  MaxPending = 2
   SuccessionChecked = TRUE
   RootChecked = TRUE
   TxHashesChecked = TRUE
